@@ -5,6 +5,7 @@
 package c13
 
 import (
+	"bytes"
 	"encoding/json"
 	"fmt"
 	"os"
@@ -25,6 +26,9 @@ var contents = [][]byte{[]byte("x\n"), []byte("x\r\ny\rz\r\n"), {}, func() []byt
 	}
 	return b
 }()}
+
+// bigCRLF is ~100 KiB of "a\r\n" lines: CR/LF pairs fall on 32 KiB and 64 KiB offsets (block-wise processing would split them)
+var bigCRLF = bytes.Repeat([]byte("a\r\n"), 34000)
 
 var names = []string{"a", "b", "c"}
 
@@ -599,7 +603,7 @@ func run(c *mcx.Ctx) {
 	// (a') other options, one deviation at a time, on all trees with <= 3 nodes and 2 contents
 	algs := [][]string{{"sha256", "sha512"}, {"sha384"}, {}, {"sha256", "md5"}, {"sha512", "sha384", "sha256"}}
 	excl := [][]string{{"a"}, {"b/"}}
-	strip := [][]string{{"root/"}, {"root/b/"}, {"root/b/", "root/"}, {"nomatch/"}}
+	strip := [][]string{{"root/"}, {"root/b/"}, {"root/b/", "root/"}, {"nomatch/"}, {"root/", "b/"}, {"root/", "a"}, {"root/a", "root/"}}
 	paths := [][]string{{"root/a", "root/b"}, {"root", "root"}, {"missing"}, {"root/b", "root/a"}}
 	for _, shape := range forests(3, 2, 0, 2) {
 		assignTargets(shape, func(f []*ref.Node) {
@@ -649,6 +653,23 @@ func run(c *mcx.Ctx) {
 			}
 		})
 	}
+	// (a'') a file larger than any plausible I/O block, with CR/LF pairs on block boundaries
+	for _, norm := range []bool{false, true} {
+		for _, follow := range []bool{false, true} {
+			n++
+			if !c.Mine(n) || len(c.Rep.Caps) > 0 {
+				continue
+			}
+			f := []*ref.Node{{Name: "a", Kind: 'f', Content: bigCRLF}, {Name: "b", Kind: 'l', Target: "a"}}
+			o := defOpt(follow, norm)
+			o.Algs = []string{"sha256", "sha384", "sha512"}
+			obs, sig := recordCase(c, f, o)
+			c.Case(true)
+			c.Step(1, 1)
+			c.Outcome("big-file|" + strings.SplitN(obs, " ", 2)[0])
+			emitViolation(Case{Part: "big-file", Tree: "a=big b=l:a", Opt: o}, obs, sig)
+		}
+	}
 	// (b) run / record histories on the trees with <= 2 nodes (one content)
 	for _, shape := range forests(2, 2, 0, 1) {
 		assignTargets(shape, func(f []*ref.Node) {
@@ -697,6 +718,8 @@ func replay(c *mcx.Ctx, raw json.RawMessage) (string, string) {
 		return "bad case: " + err.Error(), ""
 	}
 	switch cs.Part {
+	case "big-file":
+		return recordCase(c, []*ref.Node{{Name: "a", Kind: 'f', Content: bigCRLF}, {Name: "b", Kind: 'l', Target: "a"}}, cs.Opt)
 	case "trees", "options":
 		return recordCase(c, parse(cs.Tree), cs.Opt)
 	case "history":
@@ -711,7 +734,7 @@ func init() {
 	mcx.Register(&mcx.Driver{
 		ID: "C13", Run: run, Replay: replay,
 		Rule: "(a) every directory tree with <= 4 (thorough 5) nodes below the recorded root: names {a,b,c}, depth <= 3, regular files with 4 contents (LF, CR/LF/CRLF mix, empty, 256 distinct bytes), directories, symbolic links whose target is every other node, '..', the link itself, a missing name or a file outside the recorded path (file links, directory links, chains, cycles, dangling links arise by construction), each materialised on disk and recorded under {follow directory links} x {normalise line endings}; " +
-			"(a') on all trees <= 3 nodes one deviation at a time of: 5 algorithm lists (two, sha384, none, unknown, three), 2 exclude patterns, 4 strip-prefix lists x follow, 4 path lists (two paths, duplicate, missing, reversed); (b) InTotoRun and InTotoRecordStart/Stop (also with the wrong key) x 5 changes between the snapshots x trees <= 2 nodes x wrappers; (c) InTotoMatchProducts for the 81 combinations of two link products and two local files in {absent, 1, 2}. " +
+			"(a') on all trees <= 3 nodes one deviation at a time of: 5 algorithm lists (two, sha384, none, unknown, three), 2 exclude patterns, 7 strip-prefix lists (incl. a second prefix that matches the remainder) x follow; a 100 KiB CR/LF file under normalise x follow, 4 path lists (two paths, duplicate, missing, reversed); (b) InTotoRun and InTotoRecordStart/Stop (also with the wrong key) x 5 changes between the snapshots x trees <= 2 nodes x wrappers; (c) InTotoMatchProducts for the 81 combinations of two link products and two local files in {absent, 1, 2}. " +
 			"Oracle: ref.Walk on the description (never touches the disk). states = trees, transitions = recordings. non-trivial = non-empty tree.",
 		Assumptions: []string{"exclude patterns on trees containing symbolic links are don't-care (own path versus target path is not fixed by the statement); so is a plain-name pattern that names a directory (whether the directory's contents are recorded)", "error text is not compared, only error versus artifacts"},
 		BudgetQuick:  200e9,
